@@ -359,7 +359,106 @@ Section Emb.
   Definition a_Redeemers (d : nat) :=
     JIso red_f red_g (JSeq (JRec [(nm "tag", a_RedeemerTag); (nm "index", numstr); (nm "data", a_Datum d); (nm "ex_units", a_ExUnits)])).
 
-(* the table: name (as used by the C01 generator and the harness), wire schema, annotation *)
+  (* witness set: wire slots (writer's order) vkeys, native scripts, bootstraps, Plutus V1, V2, V3 scripts, plutus data,
+     redeemers; the JSON has ONE plutus_scripts array (languages are lost: everything comes back as V1) and the
+     plutus data list with its framing flag *)
+  Definition hexany := JLeaf (LHex 0 18446744073709551615).
+  Definition bytearr_any := JLeaf (LByteArr 0 18446744073709551615).
+  Definition a_BootstrapWitness := JRec [(nm "vkey", JLeaf (LExt EXT_VKEY)); (nm "signature", hex64);
+                                         (nm "chain_code", bytearr_any); (nm "attributes", bytearr_any)].
+  Definition opt_items (o : option val) : list val := match o with Some (VList l) => l | _ => [] end.
+  Definition ws_f (v : val) : val :=
+    match v with
+    | VStruct [a; b; c; p1; p2; p3; pl; r] =>
+        VStruct [a; b; c;
+                 match p1, p2, p3 with None, None, None => None | _, _, _ => Some (VList (opt_items p1 ++ opt_items p2 ++ opt_items p3)) end;
+                 match pl with Some (VAlt i (VList l)) => Some (VList [VList l; VBool (Nat.eqb i 0)]) | _ => None end;
+                 r]
+    | _ => v
+    end.
+  Definition ws_g (v : val) : val :=
+    match v with
+    | VStruct [a; b; c; p; pl; r] =>
+        VStruct [a; b; c; p; None; None;
+                 match pl with
+                 | Some (VList [VList l; VBool bdef]) => Some (VAlt (if bdef then 0%nat else 1%nat) (VList l))
+                 | Some (VList [VList l; _]) => Some (arr_any l)
+                 | _ => None
+                 end;
+                 r]
+    | _ => v
+    end.
+  Definition a_TransactionWitnessSet (d : nat) :=
+    JIso ws_f ws_g (JOptRec [
+      (nm "vkeys", a_Vkeywitnesses); (nm "native_scripts", a_NativeScripts d); (nm "bootstraps", JSeq a_BootstrapWitness);
+      (nm "plutus_scripts", JSeq hexany);
+      (nm "plutus_data", JRec [(nm "elems", JSeq (a_Datum d)); (nm "definite_encoding", JNullable (JLeaf LBool))]);
+      (nm "redeemers", a_Redeemers d)]).
+
+  (* auxiliary data: three wire forms (Shelley map, Shelley-MA pair, Alonzo tagged map), one record with a format flag *)
+  Definition opt_null (o : option val) : val := match o with Some x => x | None => VNull end.
+  Definition null_opt (v : val) : option val := match v with VNull => None | _ => Some v end.
+  Definition aux_f (v : val) : val :=
+    match v with
+    | VAlt O m => VList [m; VNull; VNull; VBool false]
+    | VAlt (S O) (VList [m; ns]) => VList [m; ns; VNull; VBool false]
+    | VAlt _ (VStruct [om; on; p1; p2; p3]) =>
+        VList [opt_null om; opt_null on;
+               match p1, p2, p3 with None, None, None => VNull | _, _, _ => VList (opt_items p1 ++ opt_items p2 ++ opt_items p3) end;
+               VBool true]
+    | _ => v
+    end.
+  Definition aux_g (v : val) : val :=
+    match v with
+    | VList [m; ns; p; VBool pref] =>
+        if negb pref && negb (match m with VNull => true | _ => false end) && (match p with VNull => true | _ => false end)
+        then match ns with VNull => VAlt 0 m | _ => VAlt 1 (VList [m; ns]) end
+        else VAlt 2 (VStruct [null_opt m; null_opt ns; null_opt p; None; None])
+    | _ => v
+    end.
+  Definition a_AuxiliaryData (d : nat) :=
+    JIso aux_f aux_g (JRec [(nm "metadata", JNullable (a_GeneralTransactionMetadata d));
+                            (nm "native_scripts", JNullable (a_NativeScripts d));
+                            (nm "plutus_scripts", JNullable (JSeq hexany));
+                            (nm "prefer_alonzo_format", JLeaf LBool)]).
+  Definition a_Transaction (d : nat) :=
+    JRec [(nm "body", a_TransactionBody d); (nm "witness_set", a_TransactionWitnessSet d); (nm "is_valid", JLeaf LBool);
+          (nm "auxiliary_data", JNullable (a_AuxiliaryData d))].
+
+  (* blocks: the header body is written flat (15 items with the TPraos pair of VRF certificates, 14 with the single Praos
+     result); the JSON nests the leader certificate (an enum), the operational certificate and the protocol version *)
+  Definition a_VRFCert := JRec [(nm "output", bytearr_any); (nm "proof", JLeaf (LByteArr 80 80))].
+  Definition hb_f (v : val) : val :=
+    match v with
+    | VList [bn; sl; pv; ik; vk; c1; c2; sz; bh; hk; sq; kp; sg; mj; mn] =>
+        VList [bn; sl; pv; ik; vk; VVar 0 [c1; c2]; sz; bh; VList [hk; sq; kp; sg]; VList [mj; mn]]
+    | VList [bn; sl; pv; ik; vk; c1; sz; bh; hk; sq; kp; sg; mj; mn] =>
+        VList [bn; sl; pv; ik; vk; VVar 1 [c1]; sz; bh; VList [hk; sq; kp; sg]; VList [mj; mn]]
+    | _ => v
+    end.
+  Definition hb_g (v : val) : val :=
+    match v with
+    | VList [bn; sl; pv; ik; vk; VVar O [c1; c2]; sz; bh; VList [hk; sq; kp; sg]; VList [mj; mn]] =>
+        VList [bn; sl; pv; ik; vk; c1; c2; sz; bh; hk; sq; kp; sg; mj; mn]
+    | VList [bn; sl; pv; ik; vk; VVar _ [c1]; sz; bh; VList [hk; sq; kp; sg]; VList [mj; mn]] =>
+        VList [bn; sl; pv; ik; vk; c1; sz; bh; hk; sq; kp; sg; mj; mn]
+    | _ => v
+    end.
+  Definition a_HeaderBody :=
+    JIso hb_f hb_g (JRec [
+      (nm "block_number", u32); (nm "slot", numstr); (nm "prev_hash", JNullable hex32);
+      (nm "issuer_vkey", JLeaf (LExt EXT_VKEY)); (nm "vrf_vkey", hex32);
+      (nm "leader_cert", JEnum [(nm "NonceAndLeader", Some (JTuple [a_VRFCert; a_VRFCert])); (nm "VrfResult", Some (JSingle a_VRFCert))]);
+      (nm "block_body_size", u32); (nm "block_body_hash", hex32); (nm "operational_cert", a_OperationalCert);
+      (nm "protocol_version", a_ProtocolVersion)]).
+  Definition a_Header := JRec [(nm "header_body", a_HeaderBody); (nm "body_signature", JLeaf (LHex 448 448))].
+  Definition a_Block (d : nat) := JRec [
+    (nm "header", a_Header); (nm "transaction_bodies", JSeq (a_TransactionBody d));
+    (nm "transaction_witness_sets", JSeq (a_TransactionWitnessSet d));
+    (nm "auxiliary_data_set", JMapObj LNumStr (enc U32) (a_AuxiliaryData d));
+    (nm "invalid_transactions", JSeq u32)].
+
+  (* the table: name (as used by the C01 generator and the harness), wire schema, annotation *)
   Definition serde_table (d : nat) : list (bytes * Schema.schema * jshape) := [
   (nm "TransactionInput", TransactionInput, a_TransactionInput);
   (nm "TransactionInputs", TransactionInputs, a_TransactionInputs);
@@ -409,7 +508,18 @@ Section Emb.
   (nm "TransactionOutput", TransactionOutput d, a_TransactionOutput d);
   (nm "TransactionOutputs", TransactionOutputs d, a_TransactionOutputs d);
   (nm "TransactionBody", TransactionBody d, a_TransactionBody d);
-  (nm "Redeemers", Redeemers d, a_Redeemers d)
+  (nm "Redeemers", Redeemers d, a_Redeemers d);
+  (nm "BootstrapWitness", BootstrapWitness, a_BootstrapWitness);
+  (nm "TransactionWitnessSet", TransactionWitnessSet d, a_TransactionWitnessSet d);
+  (nm "AuxiliaryData", AuxiliaryData d, a_AuxiliaryData d);
+  (nm "Transaction", Transaction d, a_Transaction d);
+  (nm "VRFCert", VRFCert, a_VRFCert);
+  (nm "HeaderBody", HeaderBody, a_HeaderBody);
+  (nm "HeaderBodyPraos", HeaderBodyPraos, a_HeaderBody);
+  (nm "Header", Header, a_Header);
+  (nm "HeaderPraos", HeaderPraos, a_Header);
+  (nm "Block", Block d, a_Block d);
+  (nm "PlutusScripts", PlutusScripts, JSeq hexany)
 ].
 End Emb.
 
